@@ -1,10 +1,465 @@
-//! implementation-side drivers of work package "http" (see docs/AGENT_GUIDE.md)
+//! implementation-side drivers of work package "http" (C17): the private request parsing /
+//! rewriting functions of src/client/http_proxy.rs through `http_verif_hooks`, the header read
+//! loop over loopback TCP (real time), and the whole connection handler against a harness-owned
+//! in-process AnyTLS server session (in-memory transport through `Client::verif_set_connector`).
+//!
+//! Result conventions: strings are printed as lowercase hex of their UTF-8 bytes (`-` = empty),
+//! errors as the class `ERR` (never the message), input that is not UTF-8 as `ERR` as well
+//! (the handler rejects it before parsing).
 #![allow(unused_imports, dead_code)]
 use crate::util::{hex, unhex};
+use anytls_rs::client::http_proxy::http_verif_hooks as hk;
+use std::sync::{Arc, Mutex};
+use std::time::Duration;
+
+fn s(arg: &str) -> Option<String> {
+    String::from_utf8(unhex(arg)).ok()
+}
+
+fn lines(args: &[&str]) -> Option<Vec<String>> {
+    args.iter().map(|a| s(a)).collect()
+}
+
+/// http_fhe <buf>
+fn fhe(args: &[&str]) -> String {
+    match hk::find_header_end(&unhex(args[0])) {
+        Some(n) => format!("SOME {}", n),
+        None => "NONE".into(),
+    }
+}
+
+/// http_shp <value> <default>
+fn shp(args: &[&str]) -> String {
+    let Some(v) = s(args[0]) else {
+        return "ERR".into();
+    };
+    let d: u16 = args[1].parse().unwrap();
+    match hk::split_host_port(&v, d) {
+        Ok((h, p)) => format!("OK {} {}", hex(h.as_bytes()), p),
+        Err(_) => "ERR".into(),
+    }
+}
+
+/// http_dt <method> <target> <line>...
+fn dt(args: &[&str]) -> String {
+    let (Some(m), Some(t), Some(ls)) = (s(args[0]), s(args[1]), lines(&args[2..])) else {
+        return "ERR".into();
+    };
+    match hk::determine_target(&m, &t, &ls) {
+        Ok((h, p, path, c)) => format!(
+            "OK {} {} {} {}",
+            hex(h.as_bytes()),
+            p,
+            hex(path.as_bytes()),
+            c as u8
+        ),
+        Err(_) => "ERR".into(),
+    }
+}
+
+fn parsed_str(p: &hk::Parsed) -> String {
+    let mut out = format!(
+        "OK {} {} {} {} {} {} {} {}",
+        hex(p.0.as_bytes()),
+        hex(p.1.as_bytes()),
+        hex(p.2.as_bytes()),
+        p.3,
+        hex(p.4.as_bytes()),
+        p.5 as u8,
+        hex(&p.7),
+        p.6.len()
+    );
+    for l in &p.6 {
+        out.push(' ');
+        out.push_str(&hex(l.as_bytes()));
+    }
+    out
+}
+
+/// http_parse <header> <body>   (header = bytes up to and including the terminator, as the handler passes them)
+fn parse(args: &[&str]) -> String {
+    let Some(h) = s(args[0]) else {
+        return "ERR".into();
+    };
+    match hk::parse_http_request(&h, unhex(args[1])) {
+        Ok(p) => parsed_str(&p),
+        Err(_) => "ERR".into(),
+    }
+}
+
+/// http_build <method> <version> <host> <port> <path> <is_connect> <body> <line>...
+fn build(args: &[&str]) -> String {
+    let (Some(m), Some(v), Some(h), Some(path), Some(ls)) = (
+        s(args[0]),
+        s(args[1]),
+        s(args[2]),
+        s(args[4]),
+        lines(&args[7..]),
+    ) else {
+        return "ERR".into();
+    };
+    let p: hk::Parsed = (
+        m,
+        v,
+        h,
+        args[3].parse().unwrap(),
+        path,
+        args[5] == "1",
+        ls,
+        unhex(args[6]),
+    );
+    match hk::build_forward_request(&p) {
+        Ok(b) => format!("OK {}", hex(&b)),
+        Err(_) => "ERR".into(),
+    }
+}
+
+/// http_fwd <bytes received from the HTTP client in one piece>
+/// = what the handler computes before any I/O: find_header_end, from_utf8, parse, (build).
+/// Output: `INCOMPLETE` | `ERR` | `OK <host> <port> <is_connect> <rewritten header | -> <body>`
+fn fwd(args: &[&str]) -> String {
+    let buf = unhex(args[0]);
+    let Some(end) = hk::find_header_end(&buf) else {
+        return "INCOMPLETE".into();
+    };
+    let Ok(h) = String::from_utf8(buf[..end].to_vec()) else {
+        return "ERR".into();
+    };
+    let p = match hk::parse_http_request(&h, buf[end..].to_vec()) {
+        Ok(p) => p,
+        Err(_) => return "ERR".into(),
+    };
+    let out = if p.5 {
+        Vec::new()
+    } else {
+        match hk::build_forward_request(&p) {
+            Ok(b) => b,
+            Err(_) => return "ERR".into(),
+        }
+    };
+    format!(
+        "OK {} {} {} {} {}",
+        hex(p.2.as_bytes()),
+        p.3,
+        p.5 as u8,
+        hex(&out),
+        hex(&p.7)
+    )
+}
+
+fn rt() -> tokio::runtime::Runtime {
+    // real sockets: real time, never the paused clock
+    tokio::runtime::Builder::new_current_thread()
+        .enable_all()
+        .build()
+        .unwrap()
+}
+
+const SEG_PAUSE: Duration = Duration::from_millis(4);
+
+/// write the segments with a flush and a pause after each (TCP_NODELAY set by the caller)
+async fn send_segments(c: &mut tokio::net::TcpStream, segs: &[Vec<u8>]) {
+    use tokio::io::AsyncWriteExt;
+    for (i, seg) in segs.iter().enumerate() {
+        if c.write_all(seg).await.is_err() {
+            return;
+        }
+        let _ = c.flush().await;
+        if i + 1 < segs.len() {
+            tokio::time::sleep(SEG_PAUSE).await;
+        }
+    }
+}
+
+/// http_read <eof:0|1> <segment>...   real loopback TCP; result independent of how TCP coalesces:
+/// `OK <header> <everything after the header that was sent>` | `ERR` | `PENDING` (no verdict 150 ms after the last byte)
+fn read(args: &[&str]) -> String {
+    let eof = args[0] == "1";
+    let segs: Vec<Vec<u8>> = args[1..].iter().map(|a| unhex(a)).collect();
+    rt().block_on(async move {
+        use tokio::io::{AsyncReadExt, AsyncWriteExt};
+        let l = tokio::net::TcpListener::bind("127.0.0.1:0").await.unwrap();
+        let addr = l.local_addr().unwrap();
+        let srv = tokio::spawn(async move {
+            let (mut sock, _) = l.accept().await.unwrap();
+            let r = hk::read_http_header(&mut sock).await;
+            (r, sock)
+        });
+        let mut c = tokio::net::TcpStream::connect(addr).await.unwrap();
+        c.set_nodelay(true).unwrap();
+        send_segments(&mut c, &segs).await;
+        if eof {
+            let _ = c.shutdown().await;
+        }
+        match tokio::time::timeout(Duration::from_millis(if eof { 3000 } else { 150 }), srv).await {
+            Err(_) => "PENDING".to_string(),
+            Ok(Err(_)) => "PANIC".to_string(),
+            Ok(Ok((Err(_), _))) => "ERR".to_string(),
+            Ok(Ok((Ok((h, mut rest)), mut sock))) => {
+                // drain what the loop had not read yet, so that the result does not depend on coalescing
+                let _ = c.shutdown().await;
+                let mut more = Vec::new();
+                let _ = tokio::time::timeout(Duration::from_millis(3000), sock.read_to_end(&mut more)).await;
+                rest.extend_from_slice(&more);
+                format!("OK {} {}", hex(&h), hex(&rest))
+            }
+        }
+    })
+}
+
+
+// ------------------------------------------------------------------------------------------------
+// end to end: real `handle_http_proxy_connection` on a loopback TCP connection; the AnyTLS side is an
+// in-process server `Session` over tokio::io::duplex, installed through `Client::verif_set_connector`.
+
+#[derive(Default)]
+struct Shared {
+    /// event log: "OPEN <hexhost> <port>", "SYNACK", "CBYTES" (first bytes seen by the HTTP client)
+    events: Vec<String>,
+    stream_bytes: Vec<u8>,
+    client_bytes: Vec<u8>,
+    client_eof: bool,
+    stream: Option<(Arc<anytls_rs::session::Session>, u32)>,
+}
+
+type Sh = Arc<Mutex<Shared>>;
+
+async fn serve_session(
+    half: tokio::io::DuplexStream,
+    sh: Sh,
+    open_ok: bool,
+) {
+    use anytls_rs::protocol::{Command, Frame};
+    let (mut r, w) = tokio::io::split(half);
+    let padding = anytls_rs::padding::PaddingFactory::default();
+    let ph = anytls_rs::hash_password("verif");
+    if anytls_rs::authenticate_client(&mut r, &ph, &padding).await.is_err() {
+        return;
+    }
+    let (tx, mut rx) = tokio::sync::mpsc::unbounded_channel::<Arc<anytls_rs::session::Stream>>();
+    let mut session = anytls_rs::session::Session::new_server(r, w, padding);
+    session.set_stream_callback(tx);
+    let session = Arc::new(session);
+    let s1 = session.clone();
+    tokio::spawn(async move {
+        let _ = s1.recv_loop().await;
+    });
+    let s2 = session.clone();
+    tokio::spawn(async move {
+        let _ = s2.process_stream_data().await;
+    });
+    while let Some(stream) = rx.recv().await {
+        let sh = sh.clone();
+        let session = session.clone();
+        tokio::spawn(async move {
+            let id = stream.id();
+            let dest = anytls_rs::server::handler::handler_verif_hooks::read_socks_addr(stream.clone()).await;
+            let Ok((host, port)) = dest else {
+                sh.lock().unwrap().events.push("BADDEST".into());
+                return;
+            };
+            sh.lock()
+                .unwrap()
+                .events
+                .push(format!("OPEN {} {}", hex(host.as_bytes()), port));
+            // the tunnel "exists" only after this pause: a 200 that reaches the HTTP client earlier is visible
+            tokio::time::sleep(Duration::from_millis(12)).await;
+            sh.lock().unwrap().events.push("SYNACK".into());
+            if !open_ok {
+                let f = Frame::with_data(Command::SynAck, id, bytes::Bytes::from_static(b"connect failed"));
+                let _ = session.write_control_frame(f).await;
+                return;
+            }
+            sh.lock().unwrap().stream = Some((session.clone(), id));
+            let _ = session.write_control_frame(Frame::control(Command::SynAck, id)).await;
+            let reader = stream.reader().clone();
+            let mut buf = vec![0u8; 16384];
+            loop {
+                let n = {
+                    let mut g = reader.lock().await;
+                    match g.read(&mut buf).await {
+                        Ok(0) | Err(_) => break,
+                        Ok(n) => n,
+                    }
+                };
+                sh.lock().unwrap().stream_bytes.extend_from_slice(&buf[..n]);
+            }
+        });
+    }
+}
+
+fn snapshot(sh: &Sh) -> (usize, usize, usize, bool) {
+    let g = sh.lock().unwrap();
+    (g.events.len(), g.stream_bytes.len(), g.client_bytes.len(), g.client_eof)
+}
+
+/// wait until nothing has changed for `quiet` (or the HTTP client saw EOF), at most `max`
+async fn settle(sh: &Sh, quiet: Duration, max: Duration) {
+    let t0 = tokio::time::Instant::now();
+    let mut last = snapshot(sh);
+    let mut since = tokio::time::Instant::now();
+    loop {
+        tokio::time::sleep(Duration::from_millis(3)).await;
+        let cur = snapshot(sh);
+        if cur != last {
+            last = cur;
+            since = tokio::time::Instant::now();
+        }
+        if cur.3 || since.elapsed() >= quiet || t0.elapsed() >= max {
+            return;
+        }
+    }
+}
+
+fn find(hay: &[u8], pat: &[u8]) -> Option<usize> {
+    hay.windows(pat.len()).position(|w| w == pat)
+}
+
+/// http_e2e <open_ok:0|1> <resp> <want_stream_len> <want_reply:0|1> <segment>...
+/// (the two `want` hints only tell the driver how long to wait before it looks: it waits until that many stream
+/// bytes / a reply have been seen, 3 s at most, and then for a quiet period; they do not influence what is reported)
+/// Output: `<NOOPEN | OPEN hexhost port> <NONE|200|502|OTHER> <ORD1|ORD0> <relayed 0|1> <hex of all bytes the stream received>`
+fn e2e(args: &[&str]) -> String {
+    let open_ok = args[0] == "1";
+    let resp = unhex(args[1]);
+    let want_len: usize = args[2].parse().unwrap();
+    let want_reply = args[3] == "1";
+    let segs: Vec<Vec<u8>> = args[4..].iter().map(|a| unhex(a)).collect();
+    rt().block_on(async move {
+        use tokio::io::{AsyncReadExt, AsyncWriteExt};
+        let sh: Sh = Arc::new(Mutex::new(Shared::default()));
+        let tls = Arc::new(tokio_rustls::TlsConnector::from(
+            anytls_rs::util::tls::create_client_config().unwrap(),
+        ));
+        let name = rustls::pki_types::ServerName::try_from("localhost").unwrap();
+        let client = Arc::new(anytls_rs::client::Client::new(
+            "verif",
+            "127.0.0.1:1".to_string(),
+            name,
+            tls,
+            anytls_rs::padding::PaddingFactory::default(),
+        ));
+        let shc = sh.clone();
+        client.verif_set_connector(Some(Arc::new(move || {
+            let (a, b) = tokio::io::duplex(1 << 20);
+            tokio::spawn(serve_session(b, shc.clone(), open_ok));
+            let (r, w) = tokio::io::split(a);
+            (
+                Box::new(r) as Box<dyn tokio::io::AsyncRead + Send + Unpin>,
+                Box::new(w) as Box<dyn tokio::io::AsyncWrite + Send + Unpin>,
+            )
+        })));
+        let l = tokio::net::TcpListener::bind("127.0.0.1:0").await.unwrap();
+        let addr = l.local_addr().unwrap();
+        let cl = client.clone();
+        tokio::spawn(async move {
+            let (sock, _) = l.accept().await.unwrap();
+            let _ = hk::handle_http_proxy_connection(sock, cl).await;
+        });
+        let c = tokio::net::TcpStream::connect(addr).await.unwrap();
+        c.set_nodelay(true).unwrap();
+        let (mut cr, mut cw) = c.into_split();
+        let shr = sh.clone();
+        tokio::spawn(async move {
+            let mut buf = vec![0u8; 16384];
+            loop {
+                match cr.read(&mut buf).await {
+                    Ok(0) | Err(_) => {
+                        shr.lock().unwrap().client_eof = true;
+                        break;
+                    }
+                    Ok(n) => {
+                        let mut g = shr.lock().unwrap();
+                        if g.client_bytes.is_empty() {
+                            g.events.push("CBYTES".into());
+                        }
+                        g.client_bytes.extend_from_slice(&buf[..n]);
+                    }
+                }
+            }
+        });
+        for (i, seg) in segs.iter().enumerate() {
+            if cw.write_all(seg).await.is_err() {
+                break;
+            }
+            let _ = cw.flush().await;
+            if i + 1 < segs.len() {
+                tokio::time::sleep(SEG_PAUSE).await;
+            }
+        }
+        let t0 = tokio::time::Instant::now();
+        while t0.elapsed() < Duration::from_millis(3000) {
+            let (_, sl, cl, ceof) = snapshot(&sh);
+            if ceof || (sl >= want_len && (!want_reply || cl > 0)) {
+                break;
+            }
+            tokio::time::sleep(Duration::from_millis(2)).await;
+        }
+        settle(&sh, Duration::from_millis(40), Duration::from_millis(3000)).await;
+        let st = sh.lock().unwrap().stream.clone();
+        let mut relayed = false;
+        if let Some((session, id)) = st {
+            if !resp.is_empty() {
+                let _ = session.write_data_frame(id, bytes::Bytes::from(resp.clone())).await;
+                let t0 = tokio::time::Instant::now();
+                while t0.elapsed() < Duration::from_millis(1500) {
+                    if sh.lock().unwrap().client_bytes.ends_with(&resp) {
+                        relayed = true;
+                        break;
+                    }
+                    tokio::time::sleep(Duration::from_millis(2)).await;
+                }
+            }
+        }
+        let g = sh.lock().unwrap();
+        let open = g
+            .events
+            .iter()
+            .find(|e| e.starts_with("OPEN") || e.starts_with("BADDEST"))
+            .cloned()
+            .unwrap_or_else(|| "NOOPEN".to_string());
+        let own: &[u8] = if relayed {
+            &g.client_bytes[..g.client_bytes.len() - resp.len()]
+        } else {
+            &g.client_bytes
+        };
+        let reply = if own.is_empty() {
+            "NONE".to_string()
+        } else if own.starts_with(b"HTTP/1.1 200 ") && own.ends_with(b"\r\n\r\n") && find(own, b"\r\n\r\n") == Some(own.len() - 4) {
+            "200".to_string()
+        } else if own.starts_with(b"HTTP/1.1 502 ") && own.ends_with(b"\r\n\r\n") && find(own, b"\r\n\r\n") == Some(own.len() - 4) {
+            "502".to_string()
+        } else {
+            format!("OTHER:{}", hex(own))
+        };
+        // the proxy's own reply must not be visible before the tunnel exists (SYNACK logged)
+        let pos = |name: &str| g.events.iter().position(|e| e.starts_with(name));
+        let ord = match (pos("CBYTES"), pos("SYNACK")) {
+            (Some(c), Some(s)) => c > s,
+            (Some(_), None) => own.is_empty() || reply != "200",
+            (None, _) => true,
+        };
+        format!(
+            "{} {} {} {} {}",
+            open,
+            reply,
+            if ord { "ORD1" } else { "ORD0" },
+            relayed as u8,
+            hex(&g.stream_bytes)
+        )
+    })
+}
 
 pub fn dispatch(drv: &str, args: &[&str]) -> Option<String> {
-    let _ = args;
     match drv {
+        "http_fhe" => Some(fhe(args)),
+        "http_shp" => Some(shp(args)),
+        "http_dt" => Some(dt(args)),
+        "http_parse" => Some(parse(args)),
+        "http_build" => Some(build(args)),
+        "http_fwd" => Some(fwd(args)),
+        "http_read" => Some(read(args)),
+        "http_e2e" => Some(e2e(args)),
         _ => None,
     }
 }
